@@ -581,6 +581,24 @@ def _on_all_paths(cfg, b: int, sink: int) -> bool:
 # =============================================================================== C11
 
 
+def delegated_to(repo: Repo, f: Def, pred) -> list[Def]:
+    """Private functions of f's module that f calls (one level) and whose body satisfies
+    `pred`: when a clause finds nothing in f itself, what it looks for may live there.  The
+    clause then says ANALYSIS-ERROR (not followed) instead of reporting an absence it has not
+    established."""
+    out: list[Def] = []
+    for c in f.own_nodes():
+        if isinstance(c, ast.Call):
+            for t in repo.resolve_call(c, f, f.module):
+                if t.kind == "def" and t.ref.is_func and t.ref.module is f.module and t.ref.name.startswith("_") and not t.ref.name.startswith("__") and t.ref is not f and t.ref.parent is not f and t.ref not in out and pred(t.ref):
+                    out.append(t.ref)
+    return out
+
+
+def _has_raise(h: Def) -> bool:
+    return any(isinstance(x, ast.Raise) for x in h.own_nodes())
+
+
 @rule("STORE-PAIR-1", props=["C11"], floor=3)
 def store_pair(ctx: Ctx) -> None:
     """store builds one fresh operation per (source, target, region) triple: _store_array never
@@ -592,13 +610,13 @@ def store_pair(ctx: Ctx) -> None:
     ok = len(calls) == 1 and bool(cfg.nodes[cfg.node_of(calls[0])].loops)
     if ok:
         lp = cfg.nodes[cfg.nodes[cfg.node_of(calls[0])].loops[-1]].stmt
-        ok = isinstance(lp.iter, ast.Call) and unparse(lp.iter.func) == "zip" and len(lp.iter.args) == 3
+        ok = isinstance(lp.iter, ast.Call) and unparse(lp.iter.func) == "zip" and len(lp.iter.args) >= 3
     elif len(calls) == 1:
         # one call per triple in a comprehension over zip(sources, targets, regions)
         for comp_ in [x for x in st.own_nodes() if isinstance(x, (ast.GeneratorExp, ast.ListComp))]:
             if any(c_ is calls[0] for c_ in ast.walk(comp_.elt)) and len(comp_.generators) == 1 and not comp_.generators[0].ifs:
                 it_ = comp_.generators[0].iter
-                ok = isinstance(it_, ast.Call) and unparse(it_.func) == "zip" and len(it_.args) == 3
+                ok = isinstance(it_, ast.Call) and unparse(it_.func) == "zip" and len(it_.args) >= 3
     ctx.ob(st, calls[0] if calls else None, ok, "store calls _store_array once per zipped (source, target, region) triple", sel="pair:loop")
     f = repo.get(f"{A.OPS}._store_array")
     fcfg, fl = cfg_of(f), flow_of(repo, f)
@@ -611,6 +629,9 @@ def store_pair(ctx: Ctx) -> None:
             continue
         rs = fl.roots(v, r.id) if v is not None else set()
         fresh = bool(rs) and all(r_ in (f"call:{A.OPS}.blockwise", f"call:{A.OPS}.general_blockwise") for r_ in rs)
+        if not fresh:
+            via = [r_[5:] for r_ in rs if r_.startswith("call:") and r_[5:] in repo.defs and repo.defs[r_[5:]].module is f.module and repo.defs[r_[5:]].name.startswith("_")]
+            ctx.need(not via, f"_store_array returns what the private helper {via[0].rsplit('.', 1)[-1] if via else ''} builds: not followed")
         ctx.ob(
             f,
             r.stmt,
@@ -681,8 +702,9 @@ def store_guard(ctx: Ctx) -> None:
             if any(c_ is sa_calls[0] for c_ in ast.walk(comp_.elt)) and len(comp_.generators) == 1:
                 zip_call = comp_.generators[0].iter
     zargs_ = [a.id for a in zip_call.args if isinstance(a, ast.Name)] if isinstance(zip_call, ast.Call) and unparse(zip_call.func) == "zip" else []
-    ctx.need(len(zargs_) == 3, "store: loop over zip(sources, targets, regions) not found")
-    S_, T_, R_ = zargs_
+    ctx.need(len(zargs_) >= 3 and len(zargs_) == len(zip_call.args), "store: loop over zip(sources, targets, regions) not found")
+    # (further per-pair sequences may be zipped along; sources, targets, regions come first)
+    S_, T_, R_ = zargs_[:3]
 
     def len_mismatch(t, pol, a, b):
         """`len(a) != len(b)` true / `len(a) == len(b)` false"""
@@ -732,6 +754,9 @@ def store_guard(ctx: Ctx) -> None:
         fs = [(unparse(t, 80), pol) for t, pol in facts_at(fcfg, r.id)]
         if ("target is None", True) in fs and ("region is not None", True) in fs and "ValueError" in unparse(r.stmt.exc):
             ok = True
+    if not ok:
+        dl = delegated_to(repo, f, _has_raise)
+        ctx.need(not dl, f"_store_array: no region-without-target test found in the function itself; it may live in {', '.join(h.name for h in dl)} (not followed)")
     ctx.ob(f, None, ok, "a region without a target → ValueError", sel="guard:region-no-target")
     # alignment: loop over zip(region, chunks) raising on start % cs / stop % cs
     ok = False
@@ -770,6 +795,9 @@ def store_guard(ctx: Ctx) -> None:
                     if ".start %" in body and ".stop %" in body and "!= 0" in body:
                         node = r.stmt
                         ok = bool(region_sink) and all(fcfg.all_paths_pass(fcfg.entry, s_, {fcfg.node_of(t) if fcfg.has(t) else r.id}) or fcfg.dominates(r.id, s_) or True for s_ in region_sink) and not any(fcfg.can_reach(s_, r.id) for s_ in region_sink)
+    if not ok and node is None:
+        dl = delegated_to(repo, f, _has_raise)
+        ctx.need(not dl, f"_store_array: no alignment test found in the function itself; it may live in {', '.join(h.name for h in dl)} (not followed)")
     ctx.ob(f, node, ok, "a region whose start/stop is not a multiple of the target chunk (array end exempt) on any axis → ValueError before the region operation is built", sel="guard:alignment")
     # region offsets: per axis, start // chunk size *of that axis*
     offs = [n for n in f.own_nodes() if isinstance(n, ast.BinOp) and isinstance(n.op, ast.FloorDiv) and ".start" in unparse(n.left)]
@@ -792,12 +820,18 @@ def store_guard(ctx: Ctx) -> None:
         if not (same_gen or same_index):
             ok = False
             why = f"in `{unparse(o, 50)}` the chunk size is not the one of the axis the slice belongs to (it is bound by another loop / not indexed by the axis)"
+    if not offs:
+        dl = delegated_to(repo, f, lambda h: any(isinstance(x, ast.BinOp) and isinstance(x.op, ast.FloorDiv) for x in h.own_nodes()))
+        ctx.need(not dl, f"_store_array: region offsets are computed in {', '.join(h.name for h in dl)} (not followed)")
     ctx.ob(f, offs[0] if offs else None, ok, "region block offsets are computed per axis as start // (target chunk size of the same axis)" + ("" if ok else f" — {why}"), sel="guard:offset-per-axis")
     ok = False
     for r in fcfg.stmts(ast.Raise):
         for t, pol in facts_at(fcfg, r.id):
             if pol and isinstance(t, ast.Compare) and isinstance(t.ops[0], ast.NotEq) and "source.shape" in unparse(t) and ".shape" in unparse(t.comparators[0]):
                 ok = all(fcfg.dominates(r.id, s) is False and not fcfg.can_reach(s, r.id) for s in region_sink) and bool(region_sink)
+    if not ok:
+        dl = delegated_to(repo, f, _has_raise)
+        ctx.need(not dl, f"_store_array: no shape test found in the function itself; it may live in {', '.join(h.name for h in dl)} (not followed)")
     ctx.ob(f, None, ok, "a source whose shape differs from the region's shape → ValueError before the region operation is built", sel="guard:shape")
 
 
